@@ -41,4 +41,20 @@ CHECKS = {
    technique='Hypothesis stateful (rule-based) machines over a pool of OBDDs with explicit drop/gc/hold steps, truth-table model, invariant over the global node table; failing op-logs minimised by delta debugging and replayed by a plain interpreter',
    text='Random histories of parse / combine / negate / restrict / re-parse / alias / drop / gc.collect / hold-inner-node / re-create steps under two orderings sharing the global unique table; after every step == and root identity must coincide with equality of harness-computed 16-bit truth tables, and a scan of every live node must find no duplicate (var, low, high), no redundant node and one terminal per value.',
    note='Trusted: vp/bdd.py truth tables. GC interleavings are those reachable with CPython refcounting plus explicit gc.collect() placement; single-threaded.'),
+ 'C08': dict(
+   technique='exhaustive enumeration of all operator trees (depth<=2 over {true,p}; depth 3 over {p} in the thorough tier) x 4 languages x {construct, cast_to, mixed construction, modelcheck guard} + Hypothesis random trees depth<=5; oracle = hand-written membership recognisers from the documented grammars',
+   text='For every tree of the union alphabet, construction in each language must succeed exactly when the tree is a formula of that language (TypeError otherwise), the object must have the same tree with every node in the language module and the right sort; cast_to and mixed-language construction for every ordered language pair must give an object of the target logic with the same tree or TypeError; every modelcheck given a non-state / out-of-logic object must raise TypeError; non-Kripke first arguments raise TypeError.',
+   note='Trusted: the recognisers in vp/fm.py. In-logic objects of sibling languages handed to modelcheck are not asserted here (C04). is_a_state_formula is asserted for CTL/CTL* objects only (LTL objects answer inconsistently and the property does not name the method).'),
+ 'C09': dict(
+   technique='exhaustive enumeration (all formulas <=2 operators per logic over adversarial atom pairs) + Hypothesis random formulas depth<=5 with n-ary and/or; round-trip oracle with tree comparison by the harness, printed-form injectivity by grouping',
+   text='structure(Parser()(str(f))) must equal the tree of f and every parsed node must belong to the logic, for PL, LTL, CTL* and CTL (printed in CTL* notation), over identifier atoms that hug every keyword; over each enumerated scope printed forms (CTL* and native CTL notation) are grouped and two different trees must never share one.',
+   note='Trusted: structure() reads objects by class name / atom name / child order only. Reserved words are read from Lang.symbols.'),
+ 'C10': dict(
+   technique='Hypothesis-generated valid strings, single-token mutations, cross-feeding to all four parsers and token soup; differential against independent backtracking recognisers of the four documented grammars over every admissible tokenisation; exception class and position checked; optional atheris stage in the thorough tier',
+   text='Every generated string is given to all four parsers: an accepted string must yield a formula of exactly that logic whose tree the independent recogniser also assigns to the string; a rejection must be UnexpectedToken/UnexpectedCharacters of pyModelChecking.parser with 0 <= pos <= len(text); any other exception, foreign-logic object or grammar-excluded acceptance (A F G q for CTL, E for LTL, temporal operators for PL, p and q or r, p --> q --> r) is a violation.',
+   note='Trusted: vp/syn.py (tokenizer + recursive descent written from the grammar texts). Lexing is read permissively, so tokenisation effects can never raise an alarm; recogniser-accepts/parser-rejects is only reported.'),
+ 'C11': dict(
+   technique='exhaustive pairs inside length-sorted blocks of the per-logic enumeration (~10^7 comparisons) + whole-scope set/dict key check + Hypothesis random triples; oracle = harness tree identity vs ==, !=, hash, set/dict, clone identity walk',
+   text='For formulas of one logic over non-reserved identifier atoms, == / != / hash / set / dict behaviour must coincide with tree identity computed by the harness, in both argument orders and against independently built copies; clone() must be equal with the same tree and share no node object or children list; Bool(b) == b in both directions.',
+   note='Trusted: harness tuples. Cross-logic equality and atoms that are reserved words are outside the property.'),
 }
